@@ -517,6 +517,14 @@ def run(ctx):
         a, b = gen_random(rng, kind)
         dt = rng.choice(DTYPES)
         a, b = a.astype(dt), b.astype(dt)
+        if np.dtype(dt).kind in "iuf" and rng.random() < 0.2:
+            # a mask is "zero / not zero": foreground written with another value than 1 (0/255 images, a class value, a label)
+            v = rng.choice([2, 3, 7, 100] + ([255] if np.dtype(dt).itemsize > 1 or np.dtype(dt).kind == "u" else []))
+            which = rng.choice(["ref", "pred", "both"])
+            if which in ("ref", "both"):
+                a = a * np.asarray(v, dtype=dt)
+            if which in ("pred", "both"):
+                b = b * np.asarray(v, dtype=dt)
         if a.ndim >= 2 and rng.random() < 0.15:
             # memory layout is not part of a mask: Fortran order / a strided view of one or both arrays
             lay = rng.choice(["refF", "predF", "bothF", "strided"])
